@@ -50,6 +50,7 @@ type Scope struct {
 	what         string
 	depth        int
 	qdepth       int
+	paramsFirst  bool
 }
 
 type specError struct{ msg string }
@@ -1331,6 +1332,14 @@ func (f *Frame) scopeAt(st *execState, over map[ssa.Value]Val) *Scope {
 	e := f.e
 	sc := &Scope{e: e, vars: map[string]SV{}, mem: st.mem, oldMem: f.entryMem, gh: st.gh, oldGh: f.entryGh, pkg: f.fn.Pkg.Pkg}
 	sc.golookup = func(name string) (SV, bool) {
+		// in postconditions a parameter name denotes the value passed in
+		if sc.paramsFirst {
+			for i, p := range f.fn.Params {
+				if p.Name() == name {
+					return e.svOf(f.params[i], p.Type()), true
+				}
+			}
+		}
 		// a loop-carried / merged value (phi) of that name shadows the parameter
 		for _, c := range f.names[name] {
 			if _, isPhi := c.(*ssa.Phi); !isPhi {
